@@ -22,6 +22,7 @@ type C04 struct {
 	nsent  int
 	nmut   int
 	nrand  int
+	nlong, nreaderr int
 	render int // round-trip disagreements generator vs recogniser (harness self-check)
 	regen  string
 }
@@ -135,6 +136,53 @@ func (p *C04) Prepare(env *Env, tier string, seed uint64) error {
 				mk("mutation", []string{"fault:F6:token-" + kind}, []byte(mt), mode, false)
 				p.nmut++
 			}
+		}
+	}
+	// very long physical lines (one token or one comment longer than common
+	// buffer sizes: 4096, 65536)
+	for _, n := range []int{4090, 4096, 4097, 65530, 65536, 65537, 70000, 131073} {
+		pad := strings.Repeat("x", n)
+		digits := strings.Repeat("7", n)
+		for _, txt := range []string{
+			"C[1] ;" + pad + " D[1] {a=b}\nE[2]",
+			"C[1]{txt=" + pad + "} D[1]",
+			"C[1]{txt=a " + pad + "=" + "b}",
+			"C" + "m" + pad + "[1] D[2]",
+			"C_" + pad + "/E[1]",
+			"C[" + digits + "] D[1]",
+			"C[1] " + strings.Repeat(" ", n) + "D[1];" + pad,
+		} {
+			mk("long-line", []string{"fault:F8:long-line"}, []byte(txt), "syllable", false)
+			p.nlong++
+		}
+	}
+	// the stream breaks (read error) after a prefix: whatever the prefix is,
+	// the command must not print a tree for it
+	for i := 0; i < nSent/2; i++ {
+		mode := model.Pick(r, []string{"syllable", "degree"})
+		o := &model.TextOpts{Mode: mode, MaxItems: 2 + r.Intn(4), Trivia: r.Chance(1, 2), Meta: r.Chance(1, 2), KnownSyms: p.w.ChordSyms, EndComment: r.Chance(1, 6)}
+		s := model.GenSentence(r, o)
+		toks := model.TokenSpans(s.Text)
+		cuts := []int{len(s.Text)}
+		for _, t := range toks {
+			if t.Kind == model.TRbra || t.Kind == model.TRcbra {
+				cuts = append(cuts, t.End)
+			}
+		}
+		cuts = append(cuts, r.Intn(len(s.Text)+1))
+		for _, k := range cuts {
+			c := &Case{Property: "C04", Kind: "readerr", Seed: seed, Run: len(p.cases), Labels: []string{"fault:F5:read-error"}, Params: map[string]string{"mode": mode}}
+			for _, argv := range [][]string{{"text", "parse"}, {"text", "conv", mode}} {
+				pl := GenPlan(r)
+				pl.ErrNo, pl.ErrAfter = model.Pick(r, []string{"EIO", "EIO", "EACCES"}), k
+				note := "parse"
+				if argv[1] == "conv" {
+					note = "conv"
+				}
+				c.Steps = append(c.Steps, Step{Step: simrt.Step{Argv: argv, Seed: r.U64(), Stdin: &simrt.Stream{Data: []byte(s.Text), Plan: pl}}, Note: note})
+			}
+			p.cases = append(p.cases, c)
+			p.nreaderr++
 		}
 	}
 	// short random token strings (sampled, not exhaustive)
@@ -327,6 +375,25 @@ func (p *C04) Evaluate(env *Env, c *Case) (*Outcome, error) {
 		}
 		out.Results[i] = r
 	}
+	if c.Kind == "readerr" {
+		for i := range c.Steps {
+			st, r := &c.Steps[i], out.Results[i]
+			cmd := CommandOf(st.Argv)
+			k := st.Stdin.Plan.ErrAfter
+			if k > len(st.Stdin.Data) {
+				k = len(st.Stdin.Data)
+			}
+			switch {
+			case r.Hang() != "":
+				out.Findings = append(out.Findings, Finding{Signature: "C04/no-verdict-hang/read-error/" + cmd,
+					Detail: fmt.Sprintf("`crd %s` does not terminate (%s) when its input breaks with %s after %d bytes; text %q", strings.Join(st.Argv, " "), r.Hang(), st.Stdin.Plan.ErrNo, k, first(st.Stdin.Data, 160))})
+			case produced(r):
+				out.Findings = append(out.Findings, Finding{Signature: "C04/suffix-dropped-on-read-error/" + cmd,
+					Detail: fmt.Sprintf("the input stream of `crd %s` broke with %s after %d of %d bytes and the command printed a result for the part it had seen: the rest was dropped silently; text %q", strings.Join(st.Argv, " "), st.Stdin.Plan.ErrNo, k, len(st.Stdin.Data), first(st.Stdin.Data, 160))})
+			}
+		}
+		return out, nil
+	}
 	text := c.Steps[0].Stdin.Data
 	if !utf8.Valid(text) {
 		// no verdict on corrupt encodings (C09's subject); delivery independence still applies
@@ -404,6 +471,17 @@ func (p *C04) Shrinks(c *Case) []*Case {
 	if c.Kind == "regen" {
 		return nil
 	}
+	if c.Kind == "readerr" {
+		var out []*Case
+		if len(c.Steps) > 1 {
+			for i := range c.Steps {
+				d := c.Clone()
+				d.Steps = []Step{d.Steps[i]}
+				out = append(out, d)
+			}
+		}
+		return out
+	}
 	if len(c.Steps) > 1 {
 		for i := range c.Steps {
 			d := c.Clone()
@@ -434,6 +512,8 @@ func (p *C04) Extra() map[string]any {
 		"exhaustive":                 false,
 		"exhaustive_over":            "every byte offset of every generated sentence of at most 400 bytes is a truncation case (complete over cut points per sentence, sampled over sentences)",
 		"token_mutations":            p.nmut,
+		"long_line_cases":            p.nlong,
+		"read_error_cases":           p.nreaderr,
 		"random_token_strings":       p.nrand,
 		"generator_vs_recogniser_disagreements": p.render,
 		"goyacc_regeneration":        p.regen,
